@@ -67,6 +67,9 @@ type Chain struct {
 	Policy Policy
 	// Counters accumulate what happened so far.
 	Counters Counters
+	// LastRejected is the step whose block the real code refused in the most recent NextSlot call (nil if
+	// that call did not end in ErrNotAccepted); see RejectedError.
+	LastRejected *Step
 
 	duties      map[common.Slot][]*duty
 	partSets    map[common.Epoch]map[common.ValidatorIndex]bool
@@ -501,7 +504,28 @@ type SlotOpts struct {
 	Mix     *OpMix // exact operation mix; nil: drawn from Policy
 	// NoVerify skips the second, fully validated run of the block (the caller validates it itself).
 	NoVerify bool
+	// Edit, if set, is called with the assembled, still unsigned block (state root zero) and the post-slots
+	// state / epochs context it was built for, before the state root is computed: the place to add or change
+	// operations by hand (use the Sign*/Make* helpers of Chain to keep them valid). The edited block must
+	// still be valid, otherwise NextSlot fails with ErrNotAccepted.
+	Edit func(b *SignedBlock, st common.BeaconState, epc *common.EpochsContext) error
 }
+
+// RejectedError is what NextSlot returns when the real code refused the block it built; errors.Is(err,
+// ErrNotAccepted) holds. Step carries the failing input: Pre/PreEpc/PreBlock/PreBlockEpc/Fork/Proposer/Ops
+// and Block (signed by the proposer). Stage "process_block": refused by the first, unvalidated run — the
+// state root is still zero; stage "state_transition": refused by the fully validated run.
+type RejectedError struct {
+	Step  *Step
+	Stage string
+	Err   error // what the real code said
+}
+
+func (e *RejectedError) Error() string {
+	return fmt.Sprintf("slot %d (%s): %v at %s: %v [ops: %s]", e.Step.Slot, e.Step.Fork, ErrNotAccepted, e.Stage, e.Err, opSummary(e.Step.Ops))
+}
+
+func (e *RejectedError) Unwrap() error { return ErrNotAccepted }
 
 // ErrNotAccepted wraps the error of a generated block that the real transition refused (a generator bug or a
 // defect in /repo — either way it must be looked at).
@@ -518,6 +542,7 @@ func (c *Chain) NextSlot(o *SlotOpts) (step *Step, err error) {
 	if o == nil {
 		o = &SlotOpts{}
 	}
+	c.LastRejected = nil
 	ctx := context.Background()
 	slot := c.Slot() + 1
 	step = &Step{Slot: slot, Pre: CopyState(c.State), PreEpc: c.Epc.Clone(), spec: c.Spec, gvr: c.GenesisValidatorsRoot, repair: !c.FollowCodeSyncCommittee}
@@ -565,11 +590,19 @@ func (c *Chain) NextSlot(o *SlotOpts) (step *Step, err error) {
 	if err != nil {
 		return nil, fmt.Errorf("slot %d: building block: %w", slot, err)
 	}
+	if o.Edit != nil {
+		if err := o.Edit(blk, step.PreBlock, step.PreBlockEpc); err != nil {
+			return nil, fmt.Errorf("slot %d: Edit: %w", slot, err)
+		}
+	}
 	// first run: no signature / state-root validation, to learn the post-state root
 	mark := c.Engine.Mark()
 	env := envelopeFor(c.Spec, c.GenesisValidatorsRoot, step.PreBlock, blk)
 	if err := common.PostSlotTransition(ctx, c.Spec, wepc, work, env, false); err != nil {
-		return nil, fmt.Errorf("slot %d (%s): %w: %v [ops: %s]", slot, step.Fork, ErrNotAccepted, err, opSummary(step.Ops))
+		c.SignBlock(blk, step.PreBlock)
+		step.Block = blk
+		c.LastRejected = step
+		return nil, &RejectedError{Step: step, Stage: "process_block", Err: err}
 	}
 	step.PostRoot = work.HashTreeRoot(tree.GetHashFn())
 	*blk.Header().StateRoot = step.PostRoot
@@ -589,7 +622,8 @@ func (c *Chain) NextSlot(o *SlotOpts) (step *Step, err error) {
 			err = Transition(ctx, c.Spec, vepc, v, step.Envelope(), true, true)
 		}
 		if err != nil {
-			return nil, fmt.Errorf("slot %d (%s): %w by StateTransition with validation: %v [ops: %s]", slot, step.Fork, ErrNotAccepted, err, opSummary(step.Ops))
+			c.LastRejected = step
+			return nil, &RejectedError{Step: step, Stage: "state_transition", Err: err}
 		}
 		if r := v.HashTreeRoot(tree.GetHashFn()); r != step.PostRoot {
 			return nil, fmt.Errorf("slot %d: validated run ended in state root %s, first run in %s", slot, r, step.PostRoot)
